@@ -15,6 +15,8 @@ def check(ctx):
     run, repo, res = ctx.run, ctx.repo, ctx.res
     sd = repo.cls(SQL + ':SQLDumper')
     pr = ctx.N(sd.methods['process_resource'], keep=('get_output_row', 'normalize_for_engine', 'normalize_schema_for_engine'))
+    from sa.normalize import call_idioms
+    call_idioms(ctx, pr)        # f(**{'k': v}) is f(k=v); put = d.setdefault; put(..) is d.setdefault(..)
     run.rule('R23', 'MODE-SIGNATURE(sql): the existing table is deleted only when mode == rewrite and it exists; the table is created only '
                     'when it does not exist (after a possible delete); update keys are passed only in update mode, defaulting to the '
                     'primary key; resources that are not mapped to a table pass through untouched')
@@ -191,6 +193,7 @@ def check(ctx):
     run.check(okg, 'R12', go.where, go.qualname, 'row[updated_column] = updated; row[updated_id_column] = updated_id; return row',
               'the downstream row is not the written row with truthful updated flags')
     ne = ctx.N(sd.methods['normalize_for_engine'])
+    call_idioms(ctx, ne)
     rl = row_loops(ne)
     if len(rl) != 1:
         raise AnalysisError('normalize_for_engine: row loop not found')
@@ -259,6 +262,11 @@ def check(ctx):
             t, pol = norm_compare(t, pol)
             if pol:
                 b_ = match_expr('isinstance(%s, __T)' % p0, t)
+                if b_ is not None and isinstance(b_['__T'], ast.Name):
+                    # a module-level name for the type tuple
+                    defs_ = [st_.value for st_ in sz.module.tree.body if isinstance(st_, ast.Assign) and pseudo(st_.targets[0]) == b_['__T'].id]
+                    if len(defs_) == 1:
+                        b_ = {'__T': defs_[0]}
                 pos.append(u(b_['__T']) if b_ is not None else ('None' if match_expr('%s is None' % p0, t) is not None else u(t)))
         rets = [it.node.value for it in p.items if it.kind == 'return']
         if len(pos) == 1 and len(rets) == 1:
@@ -269,25 +277,77 @@ def check(ctx):
               'an array / object value is not rebuilt from JSON-able parts kind by kind: %s' %
               sorted((k, u(v)) for k, v in got.items() if k not in want or not any(match_expr(pt, v) is not None for pt in want[k])))
     jz = repo.func(SQL + ':jsonize', None)
-    jb = [x for x in jz.node.body if not (isinstance(x, ast.Expr) and isinstance(x.value, ast.Constant))] if jz is not None else []
-    okj = len(jb) == 1 and isinstance(jb[0], ast.Return) and match_expr('json.dumps(%s)' % jz.params[0], jb[0].value) is not None
+    okj = False
+    if jz is not None:
+        jps = Enumerator(where=jz.qualname).paths(jz.node.body)
+        from sa.pathvals import PathValues as _PVj
+        okj = len(jps) == 1 and [u(r_) for r_ in _PVj(jps[0]).returns] == ['json.dumps(%s)' % jz.params[0]]
     run.check(okj, 'R12', jz.where if jz else ne.module.relpath, jz.qualname if jz else 'jsonize', 'jsonize(obj) = json.dumps(obj)',
               'the text stored for an array / object value in sqlite is not its JSON')
     # the schema handed to the engine declares array / object columns as text exactly for sqlite
     nsn = ctx.N(sd.methods['normalize_schema_for_engine'])
-    okt = len(find_stmt("if _d == 'sqlite' and _f['type'] in ['object', 'array']:\n    _f['type'] = 'string'", nsn.node)) + \
-        len(find_stmt("if _d == 'sqlite' and _f['type'] in ['array', 'object']:\n    _f['type'] = 'string'", nsn.node)) + \
-        len(find_stmt("if _d == 'sqlite' and _f['type'] in ('object', 'array'):\n    _f['type'] = 'string'", nsn.node)) + \
-        len(find_stmt("if _d == 'sqlite' and _f['type'] in ('array', 'object'):\n    _f['type'] = 'string'", nsn.node)) == 1
+    from sa.pathvals import PathValues as _PVs
+
+    def _type_set(e_):
+        if isinstance(e_, ast.Name):
+            defs_ = [st_.value for st_ in nsn.module.tree.body if isinstance(st_, ast.Assign) and pseudo(st_.targets[0]) == e_.id]
+            e_ = defs_[0] if len(defs_) == 1 else e_
+        if isinstance(e_, (ast.List, ast.Tuple, ast.Set)) and all(isinstance(x, ast.Constant) for x in e_.elts):
+            return frozenset(x.value for x in e_.elts)
+        return None
+    floops = [l for l in own_nodes(nsn.node) if isinstance(l, ast.For) and "['fields']" in u(l.iter) and isinstance(l.target, ast.Name)]
+    okt = len(floops) == 1
+    seen_t = set()
+    if okt:
+        fv_ = floops[0].target.id
+        for p in Enumerator(where=nsn.qualname).body_paths(floops[0]):
+            sq, ao = None, None
+            for t, pol in p.guards():
+                for t2, pol2 in ([(v_, True) for v_ in t.values] if isinstance(t, ast.BoolOp) and isinstance(t.op, ast.And) and pol else [(t, pol)]):
+                    t2, pol2 = norm_compare(t2, pol2)
+                    if match_expr("_d == 'sqlite'", t2) is not None:
+                        sq = pol2
+                    elif match_expr("_d != 'sqlite'", t2) is not None:
+                        sq = not pol2
+                    b_ = match_expr("%s['type'] in __S" % fv_, t2)
+                    if b_ is not None and _type_set(b_['__S']) == frozenset(['array', 'object']):
+                        ao = pol2
+                    b_ = match_expr("%s['type'] not in __S" % fv_, t2)
+                    if b_ is not None and _type_set(b_['__S']) == frozenset(['array', 'object']):
+                        ao = not pol2
+                if isinstance(t, ast.BoolOp) and isinstance(t.op, ast.And) and not pol:
+                    sq, ao = 'not both', 'not both'
+            sets = [c for o_, c in _PVs(p).stmts if isinstance(c, ast.Assign) and isinstance(o_.targets[0], ast.Subscript)
+                    and pseudo(o_.targets[0].value) == fv_ and u(o_.targets[0].slice) == "'type'"]
+            both = sq is True and ao is True
+            okt = okt and ((len(sets) == 1 and u(sets[0].value) == "'string'") if both else not sets)
+            seen_t.add(both)
+        okt = okt and seen_t == {True, False}
     run.check(okt, 'R12', nsn.where, nsn.qualname, "sqlite: array / object columns are declared string in the engine schema",
               'the column type the table is created with does not match the JSON text the sqlite fixers produce')
-    # actions only for array / object fields
-    body = u(ne.node)
-    run.check(len(find_stmt("if _f['type'] in ['array', 'object']:\n    ...\n    _a.setdefault(_f['name'], []).extend(OBJECT_FIXERS[_d])", ne.node)) +
-              len(find_stmt("if _f['type'] in ('array', 'object'):\n    ...\n    _a.setdefault(_f['name'], []).extend(OBJECT_FIXERS[_d])", ne.node)) +
-              len(find_stmt("if _f['type'] in ['object', 'array']:\n    ...\n    _a.setdefault(_f['name'], []).extend(OBJECT_FIXERS[_d])", ne.node)) +
-              len(find_stmt("if _f['type'] in ('object', 'array'):\n    ...\n    _a.setdefault(_f['name'], []).extend(OBJECT_FIXERS[_d])", ne.node)) == 1,
-              'R12', ne.where, ne.qualname, 'fixers only for array / object fields', 'other field types are rewritten for the engine')
+    # actions only for array / object fields: path by path over the loop that collects them
+    floops_ = [l for l in own_nodes(ne.node) if isinstance(l, ast.For) and "['fields']" in u(l.iter) and isinstance(l.target, ast.Name)]
+    oka = len(floops_) == 1
+    seen_a = set()
+    if oka:
+        fa = floops_[0].target.id
+        for p in Enumerator(where=ne.qualname).body_paths(floops_[0]):
+            if p.term == RAISE:
+                continue
+            ao = None
+            for t, pol in p.guards():
+                t, pol = norm_compare(t, pol)
+                for pt, sign in (("%s['type'] in __S" % fa, True), ("%s['type'] not in __S" % fa, False)):
+                    b_ = match_expr(pt, t)
+                    if b_ is not None and isinstance(b_['__S'], (ast.List, ast.Tuple, ast.Set)) and \
+                            sorted(getattr(x, 'value', None) for x in b_['__S'].elts) == ['array', 'object']:
+                        ao = pol if sign else not pol
+            exts = [c for c in path_nodes(p) if isinstance(c, ast.Call) and isinstance(c.func, ast.Attribute) and c.func.attr == 'extend'
+                    and match_expr("_a.setdefault(%s['name'], []).extend(OBJECT_FIXERS[_d])" % fa, c) is not None]
+            oka = oka and ((len(exts) == 1) if ao is True else not exts) and ao is not None
+            seen_a.add(ao)
+        oka = oka and seen_a == {True, False}
+    run.check(oka, 'R12', ne.where, ne.qualname, 'fixers only for array / object fields', 'other field types are rewritten for the engine')
     from rules import independence
     independence.r28_functions(ctx, [(ne, {})])
     ns = ctx.N(sd.methods['normalize_schema_for_engine'])
